@@ -2,6 +2,11 @@ package storesim
 
 import (
 	"testing"
+
+	"verif/sim/kernel"
 )
 
-func TestNothing(t *testing.T) {}
+func TestWorker(t *testing.T) {
+	defer CleanupScratch()
+	kernel.WorkerMain(t, Engine{})
+}
